@@ -733,21 +733,64 @@ func c02Reject(c *Ctx) {
 				sites[call] = &st{}
 			}
 		}
-		for _, p := range ps {
-			for _, a := range p.Atoms {
-				x, y, op, ok := effCmp(a)
-				if !ok || !exprIsNil(y) {
+		// the tests of each site's error: If instructions comparing it with nil (identified by SSA
+		// operand, so that a helper whose body is enumerated in line is still seen as tested)
+		type errIf struct {
+			in     *ssa.If
+			nonNil int // successor index taken when the error is non-nil
+		}
+		tests := map[ssa.Value][]errIf{}
+		for _, b := range f.Blocks {
+			ifi, ok := b.Instrs[len(b.Instrs)-1].(*ssa.If)
+			if !ok {
+				continue
+			}
+			bo, ok := ifi.Cond.(*ssa.BinOp)
+			if !ok || (bo.Op != token.NEQ && bo.Op != token.EQL) {
+				continue
+			}
+			for _, pair := range [][2]ssa.Value{{bo.X, bo.Y}, {bo.Y, bo.X}} {
+				cst, isC := pair[1].(*ssa.Const)
+				if !isC || !cst.IsNil() {
 					continue
 				}
-				b, _ := stripExtract(x)
-				for v, s := range sites {
-					if b.V == v {
-						s.tested = true
-						if op == token.NEQ && !(p.Ret != nil && !exprIsNil(p.Results[len(p.Results)-1]) && !exprIsZero(p.Results[len(p.Results)-1])) && !p.Cut {
-							s.swallowed = true
+				src := pair[0]
+				if ex, ok := src.(*ssa.Extract); ok {
+					src = ex.Tuple
+				}
+				if st := sites[src]; st != nil {
+					st.tested = true
+					nn := 0
+					if bo.Op == token.EQL {
+						nn = 1
+					}
+					tests[src] = append(tests[src], errIf{ifi, nn})
+				}
+			}
+		}
+		for _, p := range ps {
+			for v, ts := range tests {
+				for _, t := range ts {
+					for i, blk := range p.Blocks {
+						if blk != t.in.Block() {
+							continue
 						}
-						if op == token.NEQ && p.Cut {
-							s.swallowed = true
+						// the next block of this frame on the path
+						var next *ssa.BasicBlock
+						for _, nb := range p.Blocks[i+1:] {
+							if nb.Parent() == f {
+								next = nb
+								break
+							}
+						}
+						if next == nil && p.Cut && p.CutTo.Parent() == f {
+							next = p.CutTo
+						}
+						if next != blk.Succs[t.nonNil] {
+							continue
+						}
+						if p.Cut || !(p.Ret != nil && !exprIsNil(p.Results[len(p.Results)-1]) && !exprIsZero(p.Results[len(p.Results)-1])) {
+							sites[v].swallowed = true
 						}
 					}
 				}
